@@ -228,10 +228,18 @@ def check(prop, tier, seed, only_sub=None, jobs=None):
     wall = time.time() - t0
     evaluations = sum(a["evaluations"] for a in per_sub.values())
     distinct_nt = sum(len(a["nontrivial"]) + a.get("extra_nt", 0) for a in per_sub.values())
+    def _abbrev(o):
+        # evidence samples of large-batch cases: long lists are shown by their first entries and their length
+        if isinstance(o, dict):
+            return {k: _abbrev(v) for k, v in o.items()}
+        if isinstance(o, list):
+            return [_abbrev(v) for v in o[:6]] + [f"... ({len(o) - 6} more entries)"] if len(o) > 24 else [_abbrev(v) for v in o]
+        return o
+
     samples = []
     for name, a in per_sub.items():
         for smp in a["samples"][:2]:
-            samples.append(dict(subcheck=name, **smp))
+            samples.append(_abbrev(dict(subcheck=name, **smp)))
     if not samples:  # nothing passed: show the failing cases instead
         for name, a in per_sub.items():
             for bucket, fl in list(a["failures"].items())[:2]:
